@@ -423,7 +423,7 @@ func init() {
 		ID: "C09", Level: "fault_enumeration",
 		QuickRuns: 5000, ThoroughRuns: 300000,
 		Gen: c09Gen, Exec: c09Exec, Shrink: c09Shrink,
-		Rule: "one case = one generated session of 4-12 statements (ints, floats, strings, arrays, dicts, functions, computed values with attributes, macros around definitions, follow-ups that call restored functions, load restored computed values, index and mutate restored containers; sometimes a cycle or a non-finite float). The host snapshots {Attrs.ToJSON, GetCurSeed} after every statement; EVERY crash point p is enumerated: a fresh VM is restored from snapshot p (or, fault 'lost write', p-1) and statements p+1..n are replayed and compared field by field (value, error, detail, matched/rest, op count, generator bytes, variables) with the run that never crashed. Every snapshot is also checked for structural round trip and for error-on-unrepresentable. distinct = distinct statement lists; non-trivial = at least 3 statements were compared after a restore",
+		Rule: "one case = one generated session of 4-12 statements (ints, floats incl. negative zero / subnormal / beyond-int64 / shortest-form corner cases, strings, arrays, dicts, functions, computed values with attributes, macros around definitions, follow-ups that call restored functions, load restored computed values, index and mutate restored containers; sometimes a cycle or a non-finite float). The host snapshots {Attrs.ToJSON, GetCurSeed} after every statement; EVERY crash point p is enumerated: a fresh VM is restored from snapshot p (or, fault 'lost write', p-1) and statements p+1..n are replayed and compared field by field (value, error, detail, matched/rest, op count, generator bytes, variables) with the run that never crashed. Every snapshot is also checked for structural round trip and for error-on-unrepresentable. distinct = distinct statement lists; non-trivial = at least 3 statements were compared after a restore",
 		Real: []string{"dicescript VM, ToJSON/UnmarshalJSON of values and variable maps, lazy compilation of restored functions/computed values"},
 		Stub: []string{"disk (bytes kept in memory), process restart (VM discarded and rebuilt from durable bytes)", "dict iteration order fixed by the sorted-Range seam"},
 		Assumptions: []string{"JSON cannot carry aliasing between two variables: states in which the harness detects aliasing are skipped and counted", "bound methods and native objects are outside the property's list of values"},
